@@ -10,11 +10,13 @@ Record ops (T : Type) := mkops {
   add : T -> T -> T; sub : T -> T -> T; mul : T -> T -> T; div : T -> T -> T; absf : T -> T; sqrtf : T -> T;
   ofn : nat -> T; ltb : T -> T -> bool;
   zero : T; c01 : T; c02 : T; c05 : T; c11 : T; c180 : T; pi : T;
-  cosf : T -> T; sinf : T -> T               (* np.cos, np.sin : oracles *)
+  cosf : T -> T; sinf : T -> T;              (* np.cos, np.sin : oracles *)
+  c100 : T; trunc : T -> Z                   (* Python int() *)
 }.
 Arguments add {T}. Arguments sub {T}. Arguments mul {T}. Arguments div {T}. Arguments absf {T}. Arguments sqrtf {T}.
 Arguments ofn {T}. Arguments ltb {T}. Arguments zero {T}. Arguments c01 {T}. Arguments c02 {T}. Arguments c05 {T}.
 Arguments c11 {T}. Arguments c180 {T}. Arguments pi {T}. Arguments cosf {T}. Arguments sinf {T}.
+Arguments c100 {T}. Arguments trunc {T}.
 
 (* result of the search along one ray *)
 Record ray (T : Type) := mkray {
@@ -117,6 +119,13 @@ Section Gen.
     | None => None
     end.
 
+  (* __init__ of both classes: n = int(100/alpha) unless given; a supplied sample is used as it is, otherwise
+     model.draw_sample(n) *)
+  Definition sample_size (n_opt : option Z) (alpha : T) : Z :=
+    match n_opt with Some n => n | None => trunc K (c100 K / alpha) end.
+  Definition used_sample {S} (draw : Z -> S) (sample_opt : option S) (n_opt : option Z) (alpha : T) : S :=
+    match sample_opt with Some s => s | None => draw (sample_size n_opt alpha) end.
+
   Definition and_contour (sample : list (T * T)) (alpha allowed xm ym : T) (thetas : list T) :=
     let rs := rays And sample alpha allowed xm ym thetas in (and_coords rs, rs).
   Definition or_contour (sample : list (T * T)) (alpha allowed xm ym : T) (thetas : list T) (dflt : T) :=
@@ -135,7 +144,9 @@ Fixpoint lookup (tab : list (float * float)) (a : float) : float :=
 
 Definition fops (ctab stab : list (float * float)) : ops float :=
   mkops float PrimFloat.add PrimFloat.sub PrimFloat.mul PrimFloat.div PrimFloat.abs PrimFloat.sqrt FloatBits.of_nat
-        PrimFloat.ltb 0 0x1.999999999999ap-4 0x1.999999999999ap-3 0.5 0x1.199999999999ap+0 180 0x1.921fb54442d18p+1 (lookup ctab) (lookup stab).
+        PrimFloat.ltb 0 0x1.999999999999ap-4 0x1.999999999999ap-3 0.5 0x1.199999999999ap+0 180 0x1.921fb54442d18p+1 (lookup ctab) (lookup stab)
+        100 (fun x => match truncZ x with Some k => k | None => 0%Z end).
+Definition sample_size_f (n_opt : option Z) (alpha : float) : Z := sample_size float (fops [] []) n_opt alpha.
 
 (* thetas = np.arange(lowest, highest, deg_step) *)
 Definition and_contour_f (ctab stab : list (float * float)) (sample : list (float * float))
